@@ -47,9 +47,16 @@ def tree_consistent(part):
                         % (j, c.get_depth(), c.get_index(), n.get_depth(), n.get_index()))
             if c.get_depth() != n.get_depth() + 1:
                 return ("child-depth", "child of depth %d under a cell of depth %d" % (c.get_depth(), n.get_depth()))
-            want = K * (n.get_index() - 1) + 1 + j
-            if c.get_index() != want:
-                return ("child-index", "child #%d of (%d,%d) has index %d, expected %d (K=%d)"
+            # exact Python-int arithmetic: a label held as a NumPy integer would make this very expression wrap
+            # around together with the code under test (seeded change C03j), a float label would round
+            try:
+                pi, ci = n.get_index(), c.get_index()
+                want = K * (int(pi) - 1) + 1 + j
+                wrong = int(ci) != want or not (ci == int(ci)) or not (pi == int(pi))
+            except (OverflowError, ValueError, TypeError):
+                want, wrong = None, True
+            if wrong:
+                return ("child-index", "child #%d of (%r,%r) has index %r, expected %r (K=%d)"
                         % (j, n.get_depth(), n.get_index(), c.get_index(), want, K))
     if set(reach) != set(listed):
         only_listed = [k for k in listed if k not in reach]
